@@ -158,6 +158,8 @@ def neutralize(doc, attr):
         if attr in vars(t) and isinstance(getattr(t, attr), str) and getattr(t, attr):
             setattr(t, attr, 'x')
         stack.extend(t.children or [])
+        if getattr(t, 'header', None) is not None:       # (a table keeps its header row outside `children`)
+            stack.append(t.header)
 
 
 def record(m, text, neutral=()):
